@@ -5,18 +5,23 @@
 //!          produced the same batches (and pulled upstream at the same moments);
 //!          obs = () for the deterministic modes, ((e_0 e_1 ...)) for the shuffling modes:
 //!          the rng decisions of the run, one entry (n p) per emitted batch.
-//! Two lines of correspondence for the shuffling modes:
-//! * exact (tag `exact-rng`): the harness builds ChaCha8Rng::seed_from_u64(seed) itself (same
-//!   rand / rand_chacha as /repo: one resolution, they are path-dependencies of one build) and
-//!   replays `shuffle` / `random_range(0..m)` on index vectors in lock-step with the calls of
-//!   next(). The sizes of the draws are OBSERVED, not re-computed: the upstream iterator is
-//!   wrapped in a counter, so after call t the buffer length at shuffle time is
-//!   (items pulled so far) - (items emitted before call t); for sort+shuffle the number of
-//!   sub-sequences comes from the crate's own find_subsequences_of_max_size_k on the sorted
-//!   sizes of the items known to be in the buffer. The model must then emit exactly the
-//!   implementation's batches, and it rejects a decision recorded for another buffer length.
+//! Three lines of correspondence (`agree_C06s`, C06_Seeded.v); all must accept:
+//! * SEEDED (first line, every case): the model computes the shuffles and indices itself from the seed
+//!   (ChaCha8, seed_from_u64, SliceRandom::shuffle with IncreasingUniform, random_range by Canon's method,
+//!   all in Gallina: RNG_Model.v) in the order the code draws them, and must emit exactly the
+//!   implementation's batches, order inside batches included. It reads the seven input fields and
+//!   nothing else: nothing this harness observes or replays reaches it.
 //! * relational: the model side reconstructs, batch by batch, an oracle under which its own
 //!   build_batch emits what the implementation emitted.
+//! * lock-step replay (tag `exact-rng`, shuffling modes; kept as a CROSS-CHECK of the first line with the
+//!   real rand crates): the harness builds ChaCha8Rng::seed_from_u64(seed) itself (same rand / rand_chacha
+//!   as /repo: one resolution) and replays `shuffle` / `random_range(0..m)` on index vectors in lock-step
+//!   with the calls of next(). The sizes of the draws are OBSERVED, not re-computed: the upstream iterator
+//!   is wrapped in a counter, so after call t the buffer length at shuffle time is
+//!   (items pulled so far) - (items emitted before call t); for sort+shuffle the number of
+//!   sub-sequences comes from the crate's own find_subsequences_of_max_size_k on the sorted
+//!   sizes of the items known to be in the buffer. The oracle model run with these decisions must emit
+//!   the implementation's batches, and it rejects a decision recorded for another buffer length.
 use rand::seq::SliceRandom;
 use rand::{Rng as _, SeedableRng};
 use rand_chacha::ChaCha8Rng;
